@@ -128,7 +128,7 @@ STAGES = [dict(name='cond', mode='unit', coq='Check.C11c', profile=('Proofs.Judg
                     'random histories of length 5..40 with speed changes, pauses and real deltas beyond the 250 ms clamp. '
                     'non-trivial = some output is not None; distinct = distinct case text')]
 
-STAGES.append(dict(name='context', mode='app', coq='Check.C11w', cases=app_cases, nontrivial=nontrivial, shard=25,
+STAGES.append(dict(name='context', mode='app', coq='Check.C11w', profile=('Proofs.JudgeC11AppP', 'JudgeC11AppP.profile_C11b', 'C11_app_judgement_sound / C11_app_judgement_transfer'), cases=app_cases, nontrivial=nontrivial, shard=25,
                    exhaustive={'thorough': False, 'quick': False},
                    rule='the same conditions bound in a real context (input level or action level) on keys, mouse buttons and gamepad axes, 8-30 frames with speed changes, pauses, '
                         'real deltas beyond the clamp and rebuilds; every evaluation recorded by the wrapper is compared with the history-based specification'))
